@@ -31,7 +31,7 @@ use log::{debug, error, info, warn};
 use walkdir::WalkDir;
 
 use crate::backup::{get_backup_path, needs_backup};
-use crate::config::{Config, Reflink};
+use crate::config::{Backup, Config, Reflink};
 use crate::errors::{Result, XcpError};
 use crate::feedback::{StatusUpdate, StatusUpdater};
 use crate::paths::{parse_ignore, ignore_filter, is_dir, lexists};
@@ -227,6 +227,8 @@ pub fn tree_walker(
     // Destination paths (other than directories) this run has queued,
     // and the source each of them came from.
     let mut produced: HashMap<PathBuf, PathBuf> = HashMap::new();
+    // Existing destination files this run writes into, by identity.
+    let mut written: HashMap<(u64, u64), PathBuf> = HashMap::new();
 
     for source in sources {
         let sourcedir = source
@@ -313,6 +315,25 @@ pub fn tree_walker(
             let ft = FileType::from(meta.file_type());
             match ft {
                 FileType::File => {
+                    // Two names in the destination may be one file
+                    // (hard links, or a link to another entry). Two
+                    // sources written into it by the same run would
+                    // end up as a mixture of both. (With numbered
+                    // backups nothing is overwritten in place.)
+                    if config.backup != Backup::Numbered {
+                        if let Ok(tmeta) = fs::metadata(&target) {
+                            if tmeta.is_file() {
+                                if let Some(first) = written.insert((tmeta.dev(), tmeta.ino()), from.clone()) {
+                                    if first != from {
+                                        let msg = "Will not overwrite a destination written by this same copy.";
+                                        stats.send(StatusUpdate::Error(
+                                            XcpError::DestinationExists(msg, target)))?;
+                                        return Err(XcpError::EarlyShutdown(msg).into());
+                                    }
+                                }
+                            }
+                        }
+                    }
                     debug!("Send copy operation {:?} to {:?}", from, target);
                     stats.send(StatusUpdate::Size(meta.len()))?;
                     work_tx.send(Operation::Copy(from, target))?;
